@@ -9,7 +9,7 @@ import z3
 from .sx_base import GenError, PathEnd, RaiseSig
 from .theory import Int
 from .values import (F, FAll, FAnd, FEx, FImp, FOr, FT, Sym, VChoice, VExc, VFunc, VList, VModule, VObj,
-                     VOpaque, VOpt, VSet, VUnique)
+                     VOpaque, VOpt, VRefMap, VSet, VUnique)
 
 CONST_TYPES = (int, str, bool, type(None), float, enum.Enum)
 
@@ -382,6 +382,8 @@ class ExprMixin:
     def contains(self, coll, x):
         if is_const(coll) and is_const(x):
             return x in coll
+        if isinstance(coll, VRefMap):
+            return self.wrap(z3.Select(coll.arr, self.z(x)), "bool")
         if isinstance(coll, VSet):
             if not is_const(x):
                 ts = [z3.And(self.b(self.truth(self.eq(k, x))), self.b(m)) for k, m in coll.members.items()]
@@ -452,7 +454,7 @@ class ExprMixin:
             if self.unit.contract.unknown_calls == "effect":
                 return VFunc(key, "unmodelled")
             raise GenError("attribute %s of callable %s has no spec" % (attr, base.name))
-        if is_const(base) or isinstance(base, (list, dict, VList, Sym, VSet)):
+        if is_const(base) or isinstance(base, (list, dict, VList, Sym, VSet, VRefMap)):
             return VFunc(attr, "method", base)
         raise GenError("attribute %s of %r" % (attr, base))
 
@@ -477,6 +479,8 @@ class ExprMixin:
             if not self.spec:
                 self.deref(base, "subscript")
             base = base.val
+        if isinstance(base, VRefMap):
+            return self.wrap(z3.Select(base.arr, self.z(idx)), base.valkind)
         if isinstance(base, dict):
             if is_const(idx):
                 if idx in base:
@@ -498,8 +502,14 @@ class ExprMixin:
             n = self.z(base.length)
             if not self.spec:
                 ok = z3.And(i >= -n, i < n)
-                self.prove("noraise", "index_in_range", ok, src=ast.unparse(node) if node else "")
-                self.pc.append(ok)
+                from .values import exc_isinstance
+                if any(exc_isinstance("IndexError", h) for hs in self.try_stack for h in hs):
+                    # an enclosing handler catches IndexError: out of range is a path, not an obligation
+                    if not self.branch(ok, "index"):
+                        raise RaiseSig(VExc("IndexError"), "subscript")
+                else:
+                    self.prove("noraise", "index_in_range", ok, src=ast.unparse(node) if node else "")
+                    self.pc.append(ok)
             neg = z3.simplify(i < 0)
             if z3.is_true(neg):
                 i = z3.simplify(i + n)
